@@ -223,6 +223,8 @@ def cpp_side(model, cm, proto, rng, quick, stats, viols, ctx):
                 script += reads
                 left = n_items
                 while left > 0:
+                    if hr.chance(0.12):
+                        script.append(["WB", k, 0])      # an empty batch in the middle of the stream
                     if hr.chance(0.5):
                         script.append(["W1", k]); left -= 1
                     else:
